@@ -420,6 +420,19 @@ class FmtStr(object):
     def __repr__(self):
         return "FmtStr(%r)" % (self.parts,)
 
+    def placeholder(self):
+        """(text, {placeholder key: Num}): the representative spelling used for regex matching, len() and
+        positions: numeral i is written as the digits 9<i:04d>7 (A5: numeral-spelling independence)"""
+        out, holder = [], {}
+        for part in self.parts:
+            if isinstance(part, str):
+                out.append(part)
+            else:
+                key = "9%04d7" % (len(holder) + 1)
+                holder[key] = part
+                out.append(key)
+        return "".join(out), holder
+
     def template(self):
         return "".join(p if isinstance(p, str) else "\x00" for p in self.parts)
 
